@@ -96,8 +96,9 @@ func mapOrderAudit(c *Ctx, rule string, fns []*ssa.Function, strict bool) (range
 				n++
 				key := "range " + Expr(rg.X)
 				// single-entry guard: the branch conditions on len(X) that dominate the loop leave only len(X) == 1
-				lo, hi := lenBoundsAt(f, b, rg.X)
-				single := lo == 1 && hi == 1
+				_, hi := lenBoundsAt(f, b, rg.X)
+				// at most one entry: the iteration order cannot matter
+				single := hi >= 0 && hi <= 1
 				if single {
 					c.OK(rule, fnName(f), key, P.Pos(in.Pos()), "the map has exactly one entry on every path to the loop")
 					continue
@@ -269,6 +270,10 @@ func runC19(c *Ctx) {
 						return "NKEYS"
 					}
 				}
+				// the key map itself (its length is the atom len(KEYS): a range over it iterates that often)
+				if isCallNamed(v, "(*proto/gnmi.PathElem).GetKey") {
+					return "KEYS"
+				}
 			}
 			return ""
 		}
@@ -333,7 +338,7 @@ func runC19(c *Ctx) {
 			{"one elem with one key", true, true, false, 1, 1, "target name keyvalue"},
 			{"one elem with several keys", true, false, false, 1, 2, "name sortedVals"},
 		} {
-			at := &Atoms{Class: cls, Bool: map[string]bool{"PNN": true, "PFX": r.pfx, "TNE": r.tne, "ONE": r.one}, Int: map[string]int64{"NELEM": r.nelem, "NKEYS": r.nkeys}}
+			at := &Atoms{Class: cls, Bool: map[string]bool{"PNN": true, "PFX": r.pfx, "TNE": r.tne, "ONE": r.one}, Int: map[string]int64{"NELEM": r.nelem, "NKEYS": r.nkeys, "len(KEYS)": r.nkeys}}
 			e := &PPA{Cond: at.Cond, MaxVisits: 3, Watch: func(ev *Ev) bool { return ev.Label == "builtin:append" }}
 			e.Run(ts)
 			c.Paths += len(e.Paths)
@@ -587,39 +592,39 @@ func repetitionOf(got, want string, elems bool) bool {
 	return strings.HasPrefix(got, pre)
 }
 
-// lenBoundsAt derives, from the If instructions that dominate block b and
-// compare len(X) with a constant, the interval len(X) lies in on every path
-// that reaches b (hi == -1: unbounded).
+// lenBoundsAt derives the interval len(X) lies in on every path that reaches block b, from the If
+// instructions on those paths that compare len(X) with a constant (hi == -1: unbounded).  A block with
+// several predecessors (`case 0, 1:`) gets the hull of what holds on each incoming edge.
 func lenBoundsAt(f *ssa.Function, b *ssa.BasicBlock, X ssa.Value) (lo, hi int64) {
-	lo, hi = 0, -1
-	excl := map[int64]bool{}
-	for _, bb := range f.Blocks {
-		if len(bb.Instrs) == 0 {
-			continue
+	type iv struct{ lo, hi int64 }
+	memo := map[*ssa.BasicBlock]*iv{}
+	var at func(b *ssa.BasicBlock, d int) iv
+	edge := func(p, s *ssa.BasicBlock, in iv) iv {
+		if len(p.Instrs) == 0 {
+			return in
 		}
-		ifi, ok := bb.Instrs[len(bb.Instrs)-1].(*ssa.If)
+		ifi, ok := p.Instrs[len(p.Instrs)-1].(*ssa.If)
 		if !ok {
-			continue
+			return in
 		}
 		bo, ok := ifi.Cond.(*ssa.BinOp)
 		if !ok {
-			continue
+			return in
 		}
 		op := bo.Op
 		var k int64
 		if la, ok := lenArg(bo.X); ok && pkey(la) == pkey(X) {
 			kk, okc := constInt(bo.Y)
 			if !okc {
-				continue
+				return in
 			}
 			k = kk
 		} else if la, ok := lenArg(bo.Y); ok && pkey(la) == pkey(X) {
 			kk, okc := constInt(bo.X)
 			if !okc {
-				continue
+				return in
 			}
 			k = kk
-			// k op len  ==  len op' k
 			switch op {
 			case token.LSS:
 				op = token.GTR
@@ -631,63 +636,94 @@ func lenBoundsAt(f *ssa.Function, b *ssa.BasicBlock, X ssa.Value) (lo, hi int64)
 				op = token.LEQ
 			}
 		} else {
-			continue
+			return in
 		}
-		for edge, s := range bb.Succs {
-			if len(s.Preds) != 1 || !(s == b || s.Dominates(b)) {
+		if p.Succs[0] == p.Succs[1] {
+			return in
+		}
+		if s == p.Succs[1] { // false edge
+			switch op {
+			case token.EQL:
+				op = token.NEQ
+			case token.NEQ:
+				op = token.EQL
+			case token.LSS:
+				op = token.GEQ
+			case token.GEQ:
+				op = token.LSS
+			case token.GTR:
+				op = token.LEQ
+			case token.LEQ:
+				op = token.GTR
+			}
+		}
+		out := in
+		setLo := func(v int64) {
+			if v > out.lo {
+				out.lo = v
+			}
+		}
+		setHi := func(v int64) {
+			if out.hi < 0 || v < out.hi {
+				out.hi = v
+			}
+		}
+		switch op {
+		case token.EQL:
+			setLo(k)
+			setHi(k)
+		case token.NEQ:
+			if out.lo == k {
+				out.lo = k + 1
+			}
+			if out.hi == k {
+				out.hi = k - 1
+			}
+		case token.LSS:
+			setHi(k - 1)
+		case token.LEQ:
+			setHi(k)
+		case token.GTR:
+			setLo(k + 1)
+		case token.GEQ:
+			setLo(k)
+		}
+		return out
+	}
+	at = func(b *ssa.BasicBlock, d int) iv {
+		if m, ok := memo[b]; ok {
+			if m == nil {
+				return iv{0, -1} // on the stack (cycle): no information
+			}
+			return *m
+		}
+		if d > 40 || len(b.Preds) == 0 {
+			return iv{0, -1}
+		}
+		memo[b] = nil
+		var res *iv
+		for _, p := range b.Preds {
+			if b.Dominates(p) {
+				continue // back edge
+			}
+			x := edge(p, b, at(p, d+1))
+			if res == nil {
+				res = &x
 				continue
 			}
-			o := op
-			if edge == 1 { // false edge: negate
-				switch op {
-				case token.EQL:
-					o = token.NEQ
-				case token.NEQ:
-					o = token.EQL
-				case token.LSS:
-					o = token.GEQ
-				case token.GEQ:
-					o = token.LSS
-				case token.GTR:
-					o = token.LEQ
-				case token.LEQ:
-					o = token.GTR
-				}
+			if x.lo < res.lo {
+				res.lo = x.lo
 			}
-			switch o {
-			case token.EQL:
-				if k > lo {
-					lo = k
-				}
-				if hi < 0 || k < hi {
-					hi = k
-				}
-			case token.NEQ:
-				excl[k] = true
-			case token.LSS:
-				if hi < 0 || k-1 < hi {
-					hi = k - 1
-				}
-			case token.LEQ:
-				if hi < 0 || k < hi {
-					hi = k
-				}
-			case token.GTR:
-				if k+1 > lo {
-					lo = k + 1
-				}
-			case token.GEQ:
-				if k > lo {
-					lo = k
-				}
+			if x.hi < 0 || (res.hi >= 0 && x.hi > res.hi) {
+				res.hi = x.hi
 			}
 		}
+		if res == nil {
+			res = &iv{0, -1}
+		}
+		memo[b] = res
+		return *res
 	}
-	for excl[lo] {
-		lo++
-	}
-	for hi >= 0 && excl[hi] {
-		hi--
-	}
-	return lo, hi
+	r := at(b, 0)
+	return r.lo, r.hi
 }
